@@ -473,7 +473,7 @@ func c06(r *core.Run) {
 			}
 			for _, d := range ds {
 				args := core.Args(d)
-				if !core.DependsOn(args[len(args)-1], core.CapturedParam(g, 1)) {
+				if !c06DerivesFrom(newC06Env(g), args[len(args)-1], core.ParamOrCaptured(g, 1)) { // also through a private copy of the keys (fix 540d4f4)
 					o.Fail(p.InstrPos(d), "the retry task does not delete the failed keys")
 				}
 				// its error is the task's result
